@@ -1,22 +1,22 @@
 /-
 C10 with ALL extensions (tables off) on the domain WITH INLINE LINKS, part 2 (worker cf), block stage 5: fc2's
-`Lemmas/F/PlaceholdersXTBlock5.lean` with `AdjC false` (closed simple regions behind `](` and `![`) in place of `Adj3`: the
+`Lemmas/F/PlaceholdersXTBlock5.lean` with `AdjCA false` (closed simple regions behind `](` and `![`) in place of `Adj3`: the
 instance of the three string classes of `Lemmas/F/PlaceholdersXCTBlock.lean` for the token grammar of `Spec/F/NoCtl.lean`,
 and the block stage on a text in which every raw-HTML placeholder is a block of its own (`NoCtlF.OwnBlock`).
 
 * `BwC wl` (`= PWC wl`)  ordinary blocks: g3's cut-closed class — characters of the domain (no STX/ETX), no
            backslash–backtick, CLOSED simple regions, with wikilinks no `[` before a blank;
-* `TwC wl`  strings of the tree: the same facts over the domain characters plus STX/ETX (`DomB`), and `WF false 0`
+* `TwC wl`  strings of the tree: the same facts over the domain characters plus STX/ETX (`DomA`), and `WF false 0`
            (ordinary characters and LIVE foreign tokens only).  A placeholder holds neither `]` nor `!` nor `(` nor `[`:
            it opens no region, and it never lies INSIDE a region of a `TwC` string, because a closed region is made of
            `destChar`/`altChar` characters, which exclude STX;
 * `RwC wl`  elements of a block list: `BwC wl` or one placeholder block.
 
 A block of the text is cut out at blank lines (`cutOK`: what follows starts with a line feed), the lines of a paragraph
-at line ends, `lstrip` drops a prefix: all are `Cut`s, under which `AdjC false` is closed (`regionsOK_cut`).
+at line ends, `lstrip` drops a prefix: all are `Cut`s, under which `AdjCA false` is closed (`regionsOK_cut`).
 
-`block_stage_ownC`: for `OwnBlock HtmlBound.h text`, `DomB text`, `AdjC false text`, `Qw wl text`, `0 < tab`, the tree of
-`parseDocumentXT false xc tab text` consists of `FnQC wl` elements and the log satisfies `LogC pDom (PWC wl)`.
+`block_stage_ownC`: for `OwnBlock HtmlBound.h text`, `DomA text`, `AdjCA false text`, `Qw wl text`, `0 < tab`, the tree of
+`parseDocumentXT false xc tab text` consists of `FnQC wl` elements and the log satisfies `LogC pDomA (PWC wl)`.
 Core Lean only.
 -/
 import MdVerif.Lemmas.F.PlaceholdersXCTBlock3
@@ -33,8 +33,8 @@ open MdVerif.NoCtl.BlkC (Cut)
 open MdVerif.NoCtl.BlkX (TX LogC XInv)
 open MdVerif.NoCtl.BlkXT (PresT ResT OutT paraP_gen parseBlocksXT_pres_of dispatchXT_tokline dispatchXT_nl_tokline tokCh)
 open MdVerif.NoCtl.BlkXCT
-open MdVerif.NoCtlF (HtmlBound nn NlOpt BeforeTok AfterTok OwnBlock TokBlock)
-open MdVerif.NoCtlX (pDom)
+open MdVerif.NoCtlF (HtmlBound nn NlOpt BeforeTok AfterTok OwnBlock TokBlock DomA domCharA AdjCA NoEntR)
+open MdVerif.NoCtlXF (pDomA allC_domA attrsNoCtl_of_attrsCA)
 open MdVerif.NoCtlXC (Qw QN)
 open MdVerif.NoCtlXF.XT (placeholder_eq mem_placeholder ph_not_mem tokCh_placeholder placeholder_cons wf_placeholder
   mem_tokBlock tokBlock_not_mem wf_nlOpt mem_join_decomp inner_nl lstrip_of_head splitAux_no_sep nlOpt_before nlOpt_after
@@ -44,7 +44,7 @@ open MdVerif.NoCtlXF.XT (placeholder_eq mem_placeholder ph_not_mem tokCh_placeho
 abbrev BwC (wl : Bool) : Str → Prop := PWC wl
 
 /-- strings of the tree: domain characters and live foreign tokens, closed simple regions -/
-def TwC (wl : Bool) (s : Str) : Prop := (DomB s ∧ AdjC false s ∧ NoCtlF.WF false 0 s) ∧ Qw wl s
+def TwC (wl : Bool) (s : Str) : Prop := (DomA s ∧ AdjCA false s ∧ NoCtlF.WF false 0 s) ∧ Qw wl s
 
 /-- the elements of a block list: an ordinary block or one live placeholder block -/
 def RwC (wl : Bool) (s : Str) : Prop := BwC wl s ∨ TokBlock HtmlBound.h s
@@ -53,16 +53,14 @@ def RwC (wl : Bool) (s : Str) : Prop := BwC wl s ∨ TokBlock HtmlBound.h s
 theorem tw_tokBlockC (wl : Bool) {x : Str} (h : TokBlock HtmlBound.h x) : TwC wl x := by
   have hno := fun {c : Char} (h0 : c ≠ '\n') (h1 : c ≠ STX) (h2 : c ≠ ETX) (h3 : NoCtlF.inner c = false) =>
     tokBlock_not_mem h h0 h1 h2 h3
-  refine ⟨⟨?_, ⟨?_, ?_⟩, ?_⟩, fun _ => ?_⟩
+  refine ⟨⟨?_, ⟨⟨?_, ?_⟩, ?_⟩, ?_⟩, fun _ => ?_⟩
   · intro c hc
-    cases hd : domCharB c with
-    | true => rfl
-    | false =>
-      exfalso
-      simp only [domCharB, Bool.and_eq_false_iff, bne_eq_false_iff_eq] at hd
-      rcases hd with e | e <;> subst e <;> exact hno (by decide) (by decide) (by decide) (by decide) hc
+    refine NoCtlF.domCharA_of_ne ?_ ?_ <;> rintro rfl <;>
+      exact hno (by decide) (by decide) (by decide) (by decide) hc
   · exact NoCtl.noPair_of_not_mem_left (hno (by decide) (by decide) (by decide) (by decide))
   · exact NoCtl.regionsOK_of_plain (hno (by decide) (by decide) (by decide) (by decide))
+      (hno (by decide) (by decide) (by decide) (by decide))
+  · exact NoCtlF.noEntA_of_plain (hno (by decide) (by decide) (by decide) (by decide))
       (hno (by decide) (by decide) (by decide) (by decide))
   · obtain ⟨n, a, b, hn, ha, hb, rfl⟩ := h
     exact ((wf_nlOpt ha).append (wf_placeholder hn)).append (wf_nlOpt hb)
@@ -71,28 +69,29 @@ theorem tw_tokBlockC (wl : Bool) {x : Str} (h : TokBlock HtmlBound.h x) : TwC wl
 /-! ### the instance -/
 
 theorem tw_of_bwC {wl : Bool} {s : Str} (h : BwC wl s) : TwC wl s := by
-  have := NoCtl.allC_domB h.1.1
+  have := allC_domA h.1.1
   exact ⟨⟨this.2, h.1.2, NoCtlF.WF.of_noCtl this.1⟩, h.2⟩
 
 theorem Cut.isInfix {t s : Str} (h : Cut t s) : t <:+: s := by
   obtain ⟨u, v, rfl, _⟩ := h
   exact ⟨u, v, rfl⟩
 
-theorem adjC_cut {t s : Str} (h : AdjC false s) (ht : Cut t s) : AdjC false t := by
+theorem adjCA_cut {t s : Str} (h : AdjCA false s) (ht : Cut t s) : AdjCA false t := by
   obtain ⟨u, v, rfl, hv⟩ := ht
-  exact ⟨NoCtl.BlkB.noAdj_infix h.1 ⟨u, v, rfl⟩, NoCtl.regionsOK_cut h.2 hv⟩
+  exact ⟨⟨NoCtl.BlkB.noAdj_infix h.1.1 ⟨u, v, rfl⟩, NoCtl.regionsOK_cut h.1.2 hv⟩, h.2.infix ⟨u, v, rfl⟩⟩
 
 theorem TwC.cut_of_wf {wl : Bool} {s t : Str} (h : TwC wl s) (ht : Cut t s) (hw : NoCtlF.WF false 0 t) : TwC wl t :=
-  ⟨⟨fun c hc => h.1.1 c ((Cut.isInfix ht).subset hc), adjC_cut h.1.2.1 ht, hw⟩, h.2.infix (Cut.isInfix ht)⟩
+  ⟨⟨fun c hc => h.1.1 c ((Cut.isInfix ht).subset hc), adjCA_cut h.1.2.1 ht, hw⟩, h.2.infix (Cut.isInfix ht)⟩
 
 theorem tw_joinC {wl : Bool} {a b : Str} (ha : TwC wl a) (hb : TwC wl b) : TwC wl (a ++ '\n' :: b) := by
-  refine ⟨⟨?_, ⟨NoCtl.BlkB.noAdj_joinNl ha.1.2.1.1 hb.1.2.1.1, NoCtl.regionsOK_joinNl ha.1.2.1.2 hb.1.2.1.2⟩,
+  refine ⟨⟨?_, ⟨⟨NoCtl.BlkB.noAdj_joinNl ha.1.2.1.1.1 hb.1.2.1.1.1, NoCtl.regionsOK_joinNl ha.1.2.1.1.2 hb.1.2.1.1.2⟩,
+      NoCtlF.noEntA_joinNl ha.1.2.1.2 hb.1.2.1.2⟩,
     ha.1.2.2.append (.plain _ _ (by decide) (by decide) hb.1.2.2)⟩, NoCtlXC.qw_joinNl ha.2 hb.2⟩
   intro c hc
   simp only [List.mem_append, List.mem_cons] at hc
   rcases hc with hc | rfl | hc
   · exact ha.1.1 c hc
-  · decide
+  · exact NoCtlF.domCharA_of_ne (by decide) (by decide)
   · exact hb.1.1 c hc
 
 theorem tw_linesC {wl : Bool} {s : Str} (h : TwC wl s) : PL (TwC wl) (lines s) := by
@@ -115,8 +114,8 @@ theorem tw_linesC {wl : Bool} {s : Str} (h : TwC wl s) : PL (TwC wl) (lines s) :
   exact h.cut_of_wf (NoCtl.BlkC.lines_cut hl) h2
 
 /-- **the three string classes of the block stage with raw-HTML placeholders, inline links allowed** -/
-theorem dom2_wC (wl : Bool) : Dom2C pDom NoCtl.Blk.okc (BwC wl) (TwC wl) (RwC wl) where
-  b := NoCtlXC.strDomXC_adjCq wl
+theorem dom2_wC (wl : Bool) : Dom2C pDomA NoCtl.Blk.okc (BwC wl) (TwC wl) (RwC wl) where
+  b := strDomXC_adjCqA wl
   sub := fun _ h => tw_of_bwC h
   rOf := fun _ h => .inl h
   rSp := by
@@ -134,12 +133,12 @@ theorem dom2_wC (wl : Bool) : Dom2C pDom NoCtl.Blk.okc (BwC wl) (TwC wl) (RwC wl
 /-! ### a placeholder block in the loop -/
 
 theorem tok_stepC (wl : Bool) {tables : Bool} {cfg : BlockExt.XCfg} {tab : Nat} (htab : 0 < tab) {pb : Block.PB}
-    (_hpb : PresT pDom NoCtl.Blk.okc (BwC wl) (TwC wl) (RwC wl) pb) {state : List Block.BState} {refs : Block.Refs}
+    (_hpb : PresT pDomA NoCtl.Blk.okc (BwC wl) (TwC wl) (RwC wl) pb) {state : List Block.BState} {refs : Block.Refs}
     {parent : Node} {b : Str} {rest : List Str} {r : Node × Block.Refs × List Str}
-    (hP : TX pDom NoCtl.Blk.okc (TwC wl) parent) (hA : parent.textAtomic = false) (hR : LogC pDom (BwC wl) refs)
+    (hP : TX pDomA NoCtl.Blk.okc (TwC wl) parent) (hA : parent.textAtomic = false) (hR : LogC pDomA (BwC wl) refs)
     (hb : TokBlock HtmlBound.h b) (hrest : PL (RwC wl) rest)
     (hr : BlockExt.dispatchXT tables cfg tab pb state refs parent b rest = some r) :
-    ResT pDom NoCtl.Blk.okc (BwC wl) (TwC wl) (RwC wl) r := by
+    ResT pDomA NoCtl.Blk.okc (BwC wl) (TwC wl) (RwC wl) r := by
   have hbT := tw_tokBlockC wl hb
   obtain ⟨n, a, e, hn, ha, he, rfl⟩ := hb
   obtain ⟨w, hw⟩ := placeholder_cons n
@@ -166,7 +165,7 @@ theorem tok_stepC (wl : Bool) {tables : Bool} {cfg : BlockExt.XCfg} {tab : Nat} 
 /-- **the loop of the extended block parser (tables off) keeps the invariant on lists of ordinary blocks and placeholder
     blocks** -/
 theorem parseBlocksXT_pres_wC (wl : Bool) (cfg : BlockExt.XCfg) {tab : Nat} (htab : 0 < tab) (f : Nat) :
-    PresT pDom NoCtl.Blk.okc (BwC wl) (TwC wl) (RwC wl) (BlockExt.parseBlocksXT false cfg tab f) :=
+    PresT pDomA NoCtl.Blk.okc (BwC wl) (TwC wl) (RwC wl) (BlockExt.parseBlocksXT false cfg tab f) :=
   parseBlocksXT_pres_of false cfg tab (fun pb hpb state refs parent b rest r hP hA hR hb hrest hd => by
     rcases hb with hb | hb
     · exact dispatchXT_ct (dom2_wC wl) hpb hP hA hR hb hrest hd
@@ -176,8 +175,8 @@ theorem parseBlocksXT_pres_wC (wl : Bool) (cfg : BlockExt.XCfg) {tab : Nat} (hta
 
 /-- **a block of a text in which every placeholder is a block of its own is an ordinary block or a placeholder block** -/
 theorem rw_of_pieceC (wl : Bool) {s x u v : Str} (e : s = u ++ x ++ v) (hu : u = [] ∨ ∃ u', u = u' ++ nn)
-    (hv : v = [] ∨ ∃ v', v = nn ++ v') (hx : ¬ nn <:+: x) (ho : OwnBlock HtmlBound.h s) (hd : DomB s)
-    (ha : AdjC false s) (hq : Qw wl s) : RwC wl x := by
+    (hv : v = [] ∨ ∃ v', v = nn ++ v') (hx : ¬ nn <:+: x) (ho : OwnBlock HtmlBound.h s) (hd : DomA s)
+    (ha : AdjCA false s) (hq : Qw wl s) : RwC wl x := by
   have hinf : x <:+: s := ⟨u, v, e.symm⟩
   have hcut : Cut x s := by
     refine ⟨u, v, e, ?_⟩
@@ -240,16 +239,16 @@ theorem rw_of_pieceC (wl : Bool) {s x u v : Str} (e : s = u ++ x ++ v) (hu : u =
           exact htne (List.eq_nil_of_length_eq_zero (by omega))
         · have hm := last_of_suffix_nn htne ⟨u', hu'.symm⟩ ⟨u'', hu2.symm⟩
           exact nl_not_mem_placeholder n (hbm _ (by rw [← ht]; exact List.mem_append_left _ hm))
-    refine ⟨⟨?_, adjC_cut ha hcut⟩, hq.infix hinf⟩
+    refine ⟨⟨?_, adjCA_cut ha hcut⟩, hq.infix hinf⟩
     intro c hcm
     have h1 := hd c (hinf.subset hcm)
     have h2 : c ≠ STX := fun h => hs (h ▸ hcm)
     have h3 : c ≠ ETX := fun h => he (h ▸ hcm)
-    simp only [pDom, NoCtl.Blk.okc, Bool.and_eq_true, bne_iff_ne, ne_eq]
+    simp only [pDomA, NoCtl.Blk.okc, Bool.and_eq_true, bne_iff_ne, ne_eq]
     exact ⟨⟨h2, h3⟩, h1⟩
 
 /-- **the block list of a text in which every placeholder is a block of its own** -/
-theorem pl_splitS_ownC (wl : Bool) {s : Str} (ho : OwnBlock HtmlBound.h s) (hd : DomB s) (ha : AdjC false s)
+theorem pl_splitS_ownC (wl : Bool) {s : Str} (ho : OwnBlock HtmlBound.h s) (hd : DomA s) (ha : AdjCA false s)
     (hq : Qw wl s) : PL (RwC wl) (splitS nn s) := by
   intro x hx
   obtain ⟨u, v, e, hu, hv⟩ := mem_join_decomp (sep := nn) hx
@@ -261,10 +260,10 @@ theorem pl_splitS_ownC (wl : Bool) {s : Str} (ho : OwnBlock HtmlBound.h s) (hd :
 theorem strTC_of_tw_opt {wl : Bool} {t : Option Str} (h : TwC wl (t.getD [])) : NoCtlF.StrTC 0 t :=
   ⟨NoCtlF.WF.mono (Nat.le_refl _) (by simp) h.1.2.2, h.1.1, h.1.2.1.lax, NoCtlF.btSafe_of_wf h.1.2.2⟩
 
-theorem fnQC_of_xinv {wl : Bool} {n : Node} (h : XInv pDom NoCtl.Blk.okc (TwC wl) n) : FnQC wl n := by
+theorem fnQC_of_xinv {wl : Bool} {n : Node} (h : XInv pDomA NoCtl.Blk.okc (TwC wl) n) : FnQC wl n := by
   obtain ⟨hn, _⟩ := h
   have ht := hn.text
-  refine ⟨⟨hn.tag, NoCtlX.attrsNoCtl_of_attrsC hn.attrs, hn.tailAt, strTC_of_tw_opt hn.tail, ?_, ?_⟩,
+  refine ⟨⟨hn.tag, attrsNoCtl_of_attrsCA hn.attrs, hn.tailAt, strTC_of_tw_opt hn.tail, ?_, ?_⟩,
     ⟨fun ha => (hn.textP ha).2, hn.tail.2⟩, ?_, ?_⟩
   · split
     · next hat =>
@@ -288,11 +287,11 @@ theorem fnQC_of_xinv {wl : Bool} {n : Node} (h : XInv pDom NoCtl.Blk.okc (TwC wl
     characters of the domain, without backslash–backtick, with closed simple regions behind `](` and `![` (and, with
     wikilinks, no `[` before a blank), the extended block parser — every combination of admonition, def_list, footnotes,
     abbr, sane_lists; `tab_length ≥ 1` — builds a tree of `FnQC` elements, and every string of the log is free of STX/ETX,
-    footnote bodies are ordinary blocks (`LogC pDom (PWC wl)`) -/
+    footnote bodies are ordinary blocks (`LogC pDomA (PWC wl)`) -/
 theorem block_stage_ownC (wl : Bool) (xc : BlockExt.XCfg) {tab : Nat} (htab : 0 < tab) {text : Str}
-    (ho : OwnBlock HtmlBound.h text) (hd : DomB text) (ha : AdjC false text) (hq : Qw wl text)
+    (ho : OwnBlock HtmlBound.h text) (hd : DomA text) (ha : AdjCA false text) (hq : Qw wl text)
     {root : Node} {log : Block.Refs} (hr : BlockExt.parseDocumentXT false xc tab text = some (root, log)) :
-    root.Forall (FnQC wl) ∧ LogC pDom (PWC wl) log := by
+    root.Forall (FnQC wl) ∧ LogC pDomA (PWC wl) log := by
   obtain ⟨o1, _, o3⟩ := parseBlocksXT_pres_wC wl xc htab _ _ _ _ _ _
     (NoCtl.BlkX.tx_el (dom2_wC wl).tnil "div" (by decide)) rfl NoCtl.BlkX.logC_nil (pl_splitS_ownC wl ho hd ha hq) hr
   exact ⟨NoCtl.Blk.forall_mono (fun _ hn => fnQC_of_xinv hn) root o1, o3⟩
